@@ -647,10 +647,21 @@ func runC14(c C14Case) (fails []vstat.Failure) {
 	// concurrency: the pool must give the sequential answers
 	var wg sync.WaitGroup
 	var mu sync.Mutex
+	// the workers' first evaluations hit the (possibly never used) pool at the same instant: a proxy's first requests after
+	// start arrive like that
+	start := make(chan struct{})
+	defer func() {
+		select {
+		case <-start:
+		default:
+			close(start)
+		}
+	}()
 	for w := 0; w < c.Workers; w++ {
 		wg.Add(1)
 		go func(w int) {
 			defer wg.Done()
+			<-start
 			for k := 0; k < len(c.Queries); k++ {
 				i := (k + w) % len(c.Queries)
 				if skip[i] {
@@ -666,6 +677,7 @@ func runC14(c C14Case) (fails []vstat.Failure) {
 			}
 		}(w)
 	}
+	close(start)
 	wg.Wait()
 	return fails
 }
@@ -973,4 +985,4 @@ func dedupS(s []string) []string {
 
 func TestC14List(t *testing.T) { propList.Check(t, st) }
 
-func TestReplay(t *testing.T) { vstat.RunReplays(t, propC14, propEntry, propList, propC14Net, propC14Idle) }
+func TestReplay(t *testing.T) { vstat.RunReplays(t, propC14, propEntry, propList, propC14Net, propC14Idle, propC14Cold) }
